@@ -447,6 +447,7 @@ class Processor(object):
         self.envs = {}
         self.executed = set()
         self.stripped_docs = set()
+        self.number_alternatives = False      # True: an xsl:number with `from` yields every defensible reading, ALT_SEP separated
 
     # -- whitespace stripping (3.4) ---------------------------------------------------------------
     def should_strip(self, e):
@@ -941,49 +942,55 @@ class Processor(object):
 
         def m_from(n):
             return frm is not None and X.pattern_matches(X.parse_pattern(frm), n, env)
-        aos = X.axis_nodes('ancestor-or-self', node)          # nearest first
-        if level == 'single':
-            limit = None
-            if frm is not None:
-                for a in X.axis_nodes('ancestor', node):
-                    if m_from(a):
-                        limit = a
+
+        def number_list(self_is_from, from_counted, none_is_empty):
+            """the number list under one reading of `from`.  XSLT 1.0 read literally: the from node is an
+            ANCESTOR / a node BEFORE the current node (self_is_from=False) and is itself outside the counted
+            region (from_counted=False); it does not say what happens when from is given and no node matches
+            it (none_is_empty).  XSLT 2.0 spells the rules out with self_is_from, from_counted, none_is_empty
+            all true."""
+            aos = X.axis_nodes('ancestor-or-self', node)          # nearest first
+            if level in ('single', 'multiple'):
+                limit = None
+                if frm is not None:
+                    for a in aos:
+                        if (a is not node or self_is_from) and m_from(a):
+                            limit = a
+                            break
+                    if limit is None and none_is_empty:
+                        return []
+                chain = []
+                for a in aos:
+                    if a is limit:
+                        if from_counted:
+                            chain.append(a)
                         break
-            target = None
-            for a in aos:
-                if a is limit:
-                    break
-                if m_count(a):
-                    target = a
-                    break
-            if target is None:
-                return format_number_list([], fmt, gsep, gs)
-            n = 1 + sum(1 for s in X.axis_nodes('preceding-sibling', target) if m_count(s))
-            return format_number_list([n], fmt, gsep, gs)
-        if level == 'multiple':
-            chain = []
-            for a in aos:
-                if frm is not None and a is not node and m_from(a):
-                    break
-                chain.append(a)
-            nums = []
-            for a in chain[::-1]:
-                if m_count(a):
-                    nums.append(1 + sum(1 for s in X.axis_nodes('preceding-sibling', a) if m_count(s)))
-            return format_number_list(nums, fmt, gsep, gs)
-        # level = any
-        cand = X.sort_unique([node] + X.axis_nodes('preceding', node) + X.axis_nodes('ancestor', node))
-        if frm is not None:
-            start = None
-            for a in cand:
-                if a is not node and m_from(a):
-                    start = a
-            if start is not None:
-                cand = [a for a in cand if a.order > start.order]
-        n = sum(1 for a in cand if m_count(a))
-        if n == 0:
-            return format_number_list([], fmt, gsep, gs)
-        return format_number_list([n], fmt, gsep, gs)
+                    chain.append(a)
+                hits = [a for a in chain if m_count(a)]
+                if level == 'single':
+                    hits = hits[:1]
+                return [1 + sum(1 for s in X.axis_nodes('preceding-sibling', a) if m_count(s)) for a in hits[::-1]]
+            cand = X.sort_unique([node] + X.axis_nodes('preceding', node) + X.axis_nodes('ancestor', node))
+            if frm is not None:
+                start = None
+                for a in cand:
+                    if (a is not node or self_is_from) and m_from(a):
+                        start = a
+                if start is None and none_is_empty:
+                    return []
+                if start is not None:
+                    cand = [a for a in cand if a.order > start.order or (from_counted and a is start)]
+            n = sum(1 for a in cand if m_count(a))
+            return [n] if n else []
+        primary = format_number_list(number_list(False, False, False), fmt, gsep, gs)
+        if frm is not None and self.number_alternatives:
+            alts = [primary]
+            for reading in ((False, False, True), (True, True, True)):
+                t = format_number_list(number_list(*reading), fmt, gsep, gs)
+                if t not in alts:
+                    alts.append(t)
+            return ALT_SEP.join(alts)
+        return primary
 
     # -- entry ----------------------------------------------------------------------------------------
     def run(self):
@@ -999,11 +1006,13 @@ class Processor(object):
 
 
 _PENDING = object()
+ALT_SEP = '\ue000'        # separates the readings of an ambiguous xsl:number (Processor.number_alternatives)
 
 
-def transform(xsl_text, xml_text, loader=None, params=None, doc_loader=None):
+def transform(xsl_text, xml_text, loader=None, params=None, doc_loader=None, number_alternatives=False):
     sheet = Stylesheet(xsl_text, loader)
     src = refxml.parse(xml_text)
     p = Processor(sheet, src, params, doc_loader)
+    p.number_alternatives = number_alternatives
     out = p.run()
     return out, p
